@@ -51,6 +51,11 @@ C = {
    "channel-closed decision, the re-queue goroutine, limiter registration and the client's merge; equal latencies make final batches arrive together; "
    "oracle: conservation per group and termination with status 0 within a bound.",
    "deterministic simulation: seeded schedules at the aggregator/limiter/merge sites, simultaneous delivery on the simulated network, conservation + bounded-liveness oracle"),
+ "C15": ("fault_enumeration", "5 C15",
+   "Crash-point enumeration inside seeded histories of consecutive dmap client processes on one outfile: the directory content at every yield in front of a file-system "
+   "operation of the result writer is classified (absent / earlier complete result / complete current result, query file in step; append: prefix preserved, header once), "
+   "and chosen points really kill the process (goroutines exit at their next yield, completed syscalls persist) before the next process starts on the leftovers.",
+   "deterministic simulation: kill-point enumeration at file-system yields within seeded process histories, file-state classifier"),
 }
 
 checks = []
